@@ -216,7 +216,7 @@ def _run_block(arg):
                 run_one(mod, case, ctx)
     except Exception:
         ctx.check(
-            mod.PID + ".harness-exception",
+            mod.PID + ".exception-escaped",
             False,
             detail=traceback.format_exc()[-1500:],
             case={"block": block},
@@ -236,7 +236,7 @@ def run_one(mod, case, ctx, nontrivial=True):
     except CaseTimeout:
         ctx.check(mod.PID + ".terminates", False, detail=f"no result within {CASE_TIMEOUT}s")
     except Exception:
-        ctx.check(mod.PID + ".harness-exception", False, detail=traceback.format_exc()[-1500:])
+        ctx.check(mod.PID + ".exception-escaped", False, detail=traceback.format_exc()[-1500:])
     finally:
         signal.alarm(0)
 
